@@ -625,6 +625,53 @@ def lifecycle(ctx, rule="C08.validation"):
                line=c.lineno)
 
 
+def deletion_marks(ctx, rule="C08.validation"):
+    ctx.explain(f"{rule}: (deletion is recorded) a deleted mode is rejected later only because it was MARKED deleted: "
+                "Program._delete_subsystems stores `active = False` on every reference it is handed, and del_mode of the phase-space "
+                "circuits stores the `None` placeholder into `self.active[mode]` for every mode it is handed - a store on every path "
+                "through the body of the loop over the arguments that does not leave by raising.")
+    sites = [(PROG, "Program._delete_subsystems", "attr"), (G.GAUSS, "GaussianModes.del_mode", "slot"), (B.BOS, "BosonicModes.del_mode", "slot")]
+    n = 0
+    for relp, qn, kind in sites:
+        try:
+            f = ctx.tree.func(relp, qn)
+        except Exception:
+            ctx.note(f"{rule}: {qn} not present")
+            continue
+        cfg = cfg_of(f.node)
+        par = f.params[1] if len(f.params) > 1 else None
+        for loop in walk_no_nested(f.node):
+            if not isinstance(loop, ast.For) or not isinstance(loop.target, ast.Name):
+                continue
+            d = derives(f.node, loop.iter)
+            if par not in d.params:
+                continue
+            var = loop.target.id
+            marks = []
+            for st in ast.walk(loop):
+                if not isinstance(st, ast.Assign) or len(st.targets) != 1:
+                    continue
+                t = st.targets[0]
+                if kind == "attr" and isinstance(t, ast.Attribute) and t.attr == "active" and isinstance(st.value, ast.Constant) and \
+                        st.value.value is False and any(isinstance(x, ast.Name) and x.id == var for x in ast.walk(t.value)):
+                    marks += cfg.find(st)
+                if kind == "slot" and isinstance(t, ast.Subscript) and dotted(t.value) == "self.active" and isinstance(st.value, ast.Constant) \
+                        and st.value.value is None and any(isinstance(x, ast.Name) and x.id == var for x in ast.walk(t.slice)):
+                    marks += cfg.find(st)
+            heads = [nd.id for nd in cfg.nodes if nd.kind == "for" and nd.stmt is loop]
+            if not heads:
+                continue
+            n += 1
+            # every path from the loop head through the body back to the head passes a marking store
+            body_first = [b for b, lab in cfg.successors(heads[0], exc=False) if lab == TRUE] or [b for b, _ in cfg.successors(heads[0], exc=False)][:1]
+            ok = bool(marks) and not (cfg.reachable(body_first, avoid=marks, exc=False) & set(heads))
+            ctx.ob(rule, f.site, ok, "" if ok else f"the loop over `{par}` can complete an iteration without marking `{var}` as deleted "
+                   f"({'`.active = False`' if kind == 'attr' else '`self.active[mode] = None`'}): the mode stays usable after Del",
+                   role="marks-deleted", line=loop.lineno)
+    ctx.require(n >= 1, "no deletion loop found (Program._delete_subsystems / del_mode)")
+    ctx.floor(rule, 1)
+
+
 def register_shape(ctx, rule="C08.add-mode"):
     """the simulator's per-mode arrays are indexed by LIFETIME mode index (deleted modes keep a None placeholder)"""
     ctx.explain(f"{rule}: (register shape) (a) add_mode of the phase-space circuits carries every state array over: each `self.X = new` "
@@ -696,6 +743,7 @@ def rules(ctx):
     remap_guard(ctx)
     remap_snapshot(ctx)
     lifecycle(ctx)
+    deletion_marks(ctx)
     G.active_guards(ctx, "C08.active-guard", G.GAUSS, "GaussianModes", ("nmat", "mmat", "mean", "active"), GAUSS_EXC)
     G.active_guards(ctx, "C08.active-guard", B.BOS, "BosonicModes", ("means", "covs", "weights", "active"), BOS_EXC)
     ctx.floor("C08.active-guard", 28)
